@@ -4,7 +4,7 @@ CONSTANTS
   Part = "value"
   L = 8
   Cut = 6
-  Stride = 24
+  Stride = 36
 INVARIANT LawOutDomain
 INVARIANT LawSame
 INVARIANT LawPreserving
